@@ -435,6 +435,15 @@ func Choose(n int) int {
 	return x.choose(n, false, true, uint32(n)*2654435761)
 }
 
+// ChoicesMade returns the number of choices recorded so far in this execution and the length of
+// the replayed prefix (a state reached by a choice at index >= PrefixLen-1 is newly explored).
+func ChoicesMade() (made, prefixLen int) {
+	if X == nil {
+		return 0, 0
+	}
+	return len(X.Choices), len(X.prefix)
+}
+
 // NoBranch switches recording of scheduling choice points off (deterministic default
 // schedule: keep running, else lowest id) or on again. Calls nest.
 func NoBranch(on bool) {
